@@ -24,6 +24,7 @@ func checkC16(c *Ctx, r *Report) {
 	checkPairedSlices(c, r)
 	checkWholeOps(c, r)
 	checkWholeOps2(c, r)
+	checkGetRowWhole(c, r)
 	r.Note("decided: the single-bit operations, per-word mask transitions, argument guards, word-geometry formulae, unconditional bit reversal in the 180-degree rotations and paired-slice loop bounds. Not decided: the model equivalence the property states over operation histories (rotation realignment shifts, GetNextSet/Unset scanning, growth) — run-time by nature")
 }
 
@@ -1444,4 +1445,96 @@ func checkWholeOps2(c *Ctx, r *Report) {
 		}
 		report(name, bad)
 	}
+}
+
+// S-GETROW: BitMatrix.GetRow with every kind of caller-supplied buffer
+func checkGetRowWhole(c *Ctx, r *Report) {
+	r.Rule("S-GETROW", "BitMatrix.GetRow, folded from source together with NewBitArray / Clear / SetBulk / GetSize, returns for every row of matrices of width 20, 32, 33, 64 and 70 and for no buffer, a too small buffer, a buffer of the same size and a larger buffer full of ones, an array that holds the row's bits at 0..width-1 and nothing else (no stale bit of the buffer at or beyond the width), of size at least the width, and reuses the caller's buffer exactly when it is large enough", 1)
+	fd, p := c.funcDeclOf("", "BitMatrix.GetRow")
+	key := "gozxing.BitMatrix.GetRow/whole"
+	if fd == nil {
+		r.AnchorLost("S-GETROW", key, "method not found")
+		return
+	}
+	r.Analysed(key)
+	u32 := func(v uint32) *Val { return &Val{K: VInt, I: int64(v), T: types.Typ[types.Uint32]} }
+	bad := ""
+	folds := 0
+	for _, w := range []int64{20, 32, 33, 64, 70} {
+		const hgt = 3
+		rs := (w + 31) / 32
+		pat := func(x, y int64) bool { return (x*5+y*11+x*y)%3 == 0 }
+		mbits := &Val{K: VList}
+		for y := int64(0); y < hgt; y++ {
+			for k := int64(0); k < rs; k++ {
+				var word uint32
+				for b := int64(0); b < 32; b++ {
+					if x := k*32 + b; x < w && pat(x, y) {
+						word |= 1 << uint(b)
+					}
+				}
+				mbits.L = append(mbits.L, u32(word))
+			}
+		}
+		m := &Val{K: VStruct, Ptr: true, Fields: map[string]*Val{"width": vint(w), "height": vint(hgt), "rowSize": vint(rs), "bits": mbits}}
+		for _, bufSize := range []int64{-1, w - 1, w, w + 64} {
+			for y := int64(0); y < hgt && bad == ""; y++ {
+				var buf *Val = &Val{K: VNil}
+				if bufSize >= 0 {
+					words := &Val{K: VList, Local: true}
+					for k := int64(0); k < (bufSize+31)/32; k++ {
+						words.L = append(words.L, u32(0xFFFFFFFF))
+					}
+					buf = &Val{K: VStruct, Ptr: true, Local: true, Fields: map[string]*Val{"bits": words, "size": vint(bufSize)}}
+				}
+				h := &rpf{unroll: 1000, effectCalls: true, env: map[types.Object]*Val{}}
+				h.env[recvObj(p, fd)] = m
+				res, err := c.rpfCall(fd, p, []*Val{vint(y), buf}, h)
+				folds++
+				what := fmt.Sprintf("row %d of a %d-wide matrix into ", y, w)
+				switch {
+				case bufSize < 0:
+					what += "no buffer"
+				default:
+					what += fmt.Sprintf("a buffer of %d bits, all set", bufSize)
+				}
+				if err != nil {
+					bad = "?" + what + ": " + err.Error()
+					break
+				}
+				if len(res) != 1 || res[0].K != VStruct || res[0].Fields["bits"] == nil || !res[0].Fields["size"].isInt() {
+					bad = what + ": the result is not a bit array value"
+					break
+				}
+				out := res[0]
+				if bufSize >= w && out != buf {
+					bad = what + ": the caller's buffer is large enough and must be reused"
+					break
+				}
+				if out.Fields["size"].I < w {
+					bad = fmt.Sprintf("%s: the result has size %d", what, out.Fields["size"].I)
+					break
+				}
+				ws, ok := listInts(out.Fields["bits"])
+				if !ok {
+					bad = "?" + what + ": the result's words are not constants"
+					break
+				}
+				for i := int64(0); i < int64(len(ws))*32; i++ {
+					got := uint32(ws[i/32])>>(uint(i)%32)&1 == 1
+					want := i < w && pat(i, y)
+					if got != want {
+						if i >= w {
+							bad = fmt.Sprintf("%s: bit %d of the result is set - a stale bit of the buffer, the row ends at %d", what, i, w-1)
+						} else {
+							bad = fmt.Sprintf("%s: bit %d of the result is %v, the matrix holds %v", what, i, got, want)
+						}
+						break
+					}
+				}
+			}
+		}
+	}
+	r.Extra("S-GETROW folds", folds)
+	reportFold(r, c, "S-GETROW", key, fd.Pos(), bad)
 }
